@@ -34,6 +34,7 @@ pub mod split_items;
 #[path = "gen/client_items.rs"]
 pub mod client_items;
 mod runner;
+mod h_retry;
 
 fn main() {
     let mut v = put_validation::harness::harnesses();
@@ -41,5 +42,6 @@ fn main() {
     v.extend(client_items::harness::harnesses());
     v.extend(node_quote::harness::harnesses());
     v.extend(replication_items::harness::harnesses());
+    v.extend(h_retry::harnesses());
     runner::main_dispatch(v);
 }
